@@ -115,7 +115,7 @@ CHECKS.update({
 # clauses added after the seeded rounds (DESIGN.md §9.4-§9.9); appended to the level text of the check
 ADDED = {
     "C01": "In-band error report confined to the `no subscriber` branch evaluated at report time.",
-    "C02": "Also: reset-before-use of every output buffer on all paths (premise of the typestate, = R14.2); the string sanitizer hands text to the serde_json escaper exactly once and never appends it raw; splice offsets are measured on encoded text. Every success writes at least one record (R02.7, C03's life-sign analysis).",
+    "C02": "Also: reset-before-use of every output buffer on all paths (premise of the typestate, = R14.2); the string sanitizer hands text to the serde_json escaper exactly once and never appends it raw; splice offsets are measured on encoded text. Every success writes at least one record (R02.8, C03's life-sign analysis).",
     "C03": "Also: dimension carriers rebuilt per call; a record is skipped only through the empty-value-buffer edge and every success writes a record; exact text through the escaper (= R02.6); finiteness tests decide about skipping only on clamped values (only NaN is unusable).",
     "C04": "Also: the entries-before-wake counter protocol inside the tracker (exact decrement, constant only with release, pure ring bound armed after every collection).",
     "C05": "Also: the drain used at shutdown stops only on ring-empty or deadline; the attach handle's detach fn is called exactly once when present.",
